@@ -34,6 +34,8 @@ def _jan1_ordinal(y):
         return D.date(y, 1, 1).toordinal()
     if y == 10000:
         return MAXORD + 1
+    if y == 10001:
+        return MAXORD + 1 + 366   # 10000 is divisible by 400: a leap year
     if y == 0:
         return 1 - 366            # year 0 is a leap year in the proleptic calendar
     raise ValueError(y)
@@ -56,8 +58,6 @@ def week_info(d, wkst):
     else:
         wy = y - 1
     s = _week1_start(wy, wkst)
-    if wy == 10000:
-        return wy, (o - s) // 7 + 1, 52        # only week 1 of year 10000 can contain representable days
     n = (_week1_start(wy + 1, wkst) - s) // 7
     return wy, (o - s) // 7 + 1, n
 
@@ -311,6 +311,15 @@ def selftest():
         for wk in range(7):
             for d in [D.date(y, 1, i) for i in range(1, 9)] + [D.date(y, 12, i) for i in range(22, 32)] + [D.date(y, 6, 15)]:
                 assert week_info(d, wk)[:2] == brute(d, wk), (d, wk)
+    # the Gregorian calendar repeats (weekdays included) every 400 years: the ends of the representable range must
+    # number their weeks (week-year offset, week number, weeks in the week-year) like the same days 8000 / 2000 years away
+    for wk in range(7):
+        for day in range(20, 32):
+            a1, a2 = week_info(D.date(9999, 12, day), wk), week_info(D.date(1999, 12, day), wk)
+            assert (a1[0] - 8000, a1[1], a1[2]) == a2, (day, wk, a1, a2)
+        for day in range(1, 12):
+            a1, a2 = week_info(D.date(1, 1, day), wk), week_info(D.date(2001, 1, day), wk)
+            assert (a1[0] + 2000, a1[1], a1[2]) == a2, (day, wk, a1, a2)
     # Easter vs the 22 Mar .. 25 Apr Sunday window
     for y in range(1583, 4100, 7):
         e = easter_western(y)
